@@ -122,6 +122,41 @@ def unencodable(kind, obj):
         obj.timestamp = b"1.5"
 
 
+def writer_accepts_reader_refuses(kind, obj):
+    """an object the writer is happy with but the library's own reader would refuse (if a dump decides to fail on it, it
+    must do so before touching the destination); returns False when the format has no such object"""
+    if kind == "images":
+        import productmd.images as IM
+        cell = None
+        for v in sorted(obj.images):
+            for a in sorted(obj.images[v]):
+                cell = obj.images[v][a]
+                break
+            break
+        if not cell:
+            return False
+        old = sorted(cell, key=lambda o: o.path)[0]
+        twin = IM.Image(obj)
+        for f in ("path", "mtime", "size", "volume_id", "type", "format", "arch", "disc_number", "disc_count", "checksums",
+                  "implant_md5", "bootable", "subvariant", "unified", "additional_variants"):
+            setattr(twin, f, getattr(old, f))
+        twin.path, twin.checksums = old.path + ".twin", {"sha256": "0" * 64}
+        cell.add(twin)                                   # bypasses add(): one identity, two checksums
+        return True
+    if kind == "discinfo":
+        obj.disc_numbers = [1, "2a"]
+        return True
+    return False
+
+
+def late_failure(kind, obj):
+    """treeinfo: make the [general] compatibility writer (which has no validators) fail"""
+    if kind != "treeinfo":
+        return False
+    obj.variants.variants.clear()
+    return True
+
+
 def generate(rng):
     R = reflect()
     cases = []
@@ -134,6 +169,10 @@ def generate(rng):
         for pre in (True, False):
             cases.append({"kind": kind, "content": content, "pre": pre, "inject": None})
             cases.append({"kind": kind, "content": content, "pre": pre, "inject": "unencodable"})
+            if kind in ("images", "discinfo"):
+                cases.append({"kind": kind, "content": content, "pre": pre, "inject": "reader-refuses"})
+            if kind == "treeinfo":
+                cases.append({"kind": kind, "content": content, "pre": pre, "inject": "late-failure"})
             for pt in injection_points(kind):
                 cases.append({"kind": kind, "content": content, "pre": pre, "inject": pt})
     return cases
@@ -160,6 +199,10 @@ def impl(case):
             really_invalid(kind, obj)
         elif case["inject"] == "unencodable":
             unencodable(kind, obj)
+        elif case["inject"] == "reader-refuses":
+            writer_accepts_reader_refuses(kind, obj)
+        elif case["inject"] == "late-failure":
+            late_failure(kind, obj)
         else:
             clsname, meth = case["inject"]
             mod, cls = clsname.split(".")
